@@ -157,6 +157,10 @@ def materialize(E, D, origin=None):
     E.assume(mk_bool(z3.Length(lst.items[0].t) >= 1)) if k in (1, 2) else None     # a hex-prefix key is never empty
     lst.model_term = z3.simplify(D)
     lst.model_items = tuple(lst.items)
+    unfold_wf(E, D)
+    fl = E.ghost.setdefault("followed", [])
+    if not any(x.eq(lst.model_term) for x in fl):
+        fl.append(lst.model_term)
     if origin is not None:
         plist, j = origin
         plist.items[j] = lst          # the parent's slot *is* this list (decode_node returns the embedded list itself)
@@ -179,11 +183,20 @@ def unfold_wf(E, D):
         return
     done.append(D)
     E.assume(mk_bool(hwfp(D) == hwf(E, D)))
+    # definitional equations of allnib on the constructors of the node's path (e.g. a path built as (i,) ++ p)
+    from contracts.seqspec import allnib_of
+    from contracts.nibbles_c import B2N
+    side = []
+    for pth in (HNode.lpath(D), HNode.epath(D)):
+        allnib_of(z3.simplify(pth), side, B2N)
+    for f in side:
+        E.assume(mk_bool(f))
 
 
 def hwf(E, D, depth=1):
     """well-formedness of a node as the trie writes it (one level; embedded children deeply through hwfp)"""
-    ok_ref = lambda r: z3.And(z3.Implies(HRef.is_RHash(r), z3.Length(HRef.rhash(r)) == 32),
+    BNH = blank_node_hash(E)
+    ok_ref = lambda r: z3.And(z3.Implies(HRef.is_RHash(r), z3.And(z3.Length(HRef.rhash(r)) == 32, HRef.rhash(r) != BNH)),
                               z3.Implies(HRef.is_REmb(r), z3.And(hwfp(HRef.remb(r)), z3.Not(HNode.is_HBlank(HRef.remb(r))))))
     return z3.And(
         z3.Implies(HNode.is_HLeaf(D), z3.And(allnib(HNode.lpath(D)), z3.Length(HNode.lval(D)) > 0)),
@@ -228,6 +241,20 @@ def resolve_ref(r):
             if z3.is_app(e) and e.decl().eq(rlpenc):
                 return e.arg(0)
     return None
+
+
+def _mentions(X, D):
+    """does the term X contain D as a sub-term?  (X = rlpdec(unkeccak(rhash(c3(D)))) or remb(echild(D)) ...)"""
+    stack = [X]
+    seen = 0
+    while stack and seen < 200:
+        t = stack.pop()
+        seen += 1
+        if t.eq(D):
+            return True
+        if z3.is_app(t):
+            stack.extend(t.children())
+    return False
 
 
 def is_constructor(D):
@@ -275,6 +302,15 @@ def unfold_hlk(E, D, k, depth=1):
     E.assume(mk_bool(hlk(D, k) == body))
     # a blank child holds nothing (definition of hlk at HBlank, at the two keys a step can continue with)
     E.assume(mk_bool(z3.And(hlk(HNode.HBlank, kt) == empty, hlk(HNode.HBlank, tail(k, z3.Length(ep))) == empty)))
+    if depth > 0 and not is_constructor(D):
+        # an opaque node (an argument, a node read from the database): the children that were followed on this path
+        # (materialised by get_node) are unfolded at the keys a step from D continues with
+        for X in list(E.ghost.get("followed", [])):
+            if X.eq(D):
+                continue
+            if _mentions(X, D):
+                unfold_hlk(E, X, kt, depth - 1)
+                unfold_hlk(E, X, tail(k, z3.Length(ep)), depth - 1)
     if depth <= 0 or not is_constructor(D):
         return
     name = D.decl().name()
